@@ -45,12 +45,12 @@ func runC18(c *Ctx) {
 		"(slices of it, or results/stored state of module callees whose retains(f,i) summary says they keep their argument without copy/append-to-fresh/string()) is passed to a go statement, sent on a channel, " +
 		"stored in non-local memory or handed to an unknown callee. " +
 		"R2 MASK-SAT + sibling dispatch: every `Header.Flags & M` classification against Op* constants has C&^M==0 for every compared constant, pairwise distinct cases, OR(all dispatched Op*) ⊆ M ⊆ 0xF800 (R+OPCODE of RFC 1002 §4.2.1.1), one M at all sites, " +
-		"the dispatch switches map each Op* constant to the same handler method name, and each handler reaches the name-table operation of its opcode (Query/Register/Release/Refresh) and no other. " +
-		"R3 ID ECHO: in every NBNS responder the Marshal-ed response's Header.TransactionID is, on every def-use path, the loaded Header.TransactionID of the packet Unmarshal-ed from the function's input; no callee given the response stores that field; " +
-		"llmnr.CreateResponseFromMessage copies Header.ID from its argument; Client.readLoop looks the pending query up by the ID of the message decoded from the bytes just read and delivers that same message by a non-blocking send; Client.Query registers a buffered channel under the ID of the message it sends. " +
-		"R4 LIFECYCLE: every unbounded loop that blocks in Read*/Accept* tests a receiver-field quit channel on every iteration with a case that leaves the loop; some method closes that same field and the channel is created; each blocking call is either preceded in the iteration by a Set(Read)Deadline on the same connection or the closer also closes that same connection/listener field; " +
+		"the dispatch switches map each Op* constant to the same handler method name, every server type (struct with Start and Stop) reaches such a dispatch from its methods — servers may share one dispatch method; the unit is the server type, not the switch statement — and for every (server type, opcode) the dispatched handler reaches, in its body or same-package helpers, the name-table operation of its opcode (Query/Register/Release/Refresh) and no other; DefendName and HandleRedirect reach a judged classification (directly or through a shared predicate helper). " +
+		"R3 ID ECHO: in every NBNS responder the Marshal-ed response's Header.TransactionID is, on every def-use path, the loaded Header.TransactionID of the packet Unmarshal-ed from the function's input (or of the packet parameter every caller fills that way); no callee given the response stores that field; every server type reaches a judged responder; " +
+		"llmnr.CreateResponseFromMessage copies Header.ID from its argument; Client.readLoop looks the pending query up by the ID of the message decoded from the bytes just read and delivers that same message by a non-blocking send — the lookup and the send may sit in helpers of the loop (deliver(msg), pending(id), trySend(ch, msg), a decode helper fed with the filled buffer), judged at their call sites; Client.Query registers a buffered channel under the ID of the message it sends. " +
+		"R4 LIFECYCLE: every unbounded loop that blocks in Read*/Accept* (directly or in a helper it calls synchronously, two levels) tests a receiver-field quit channel on every iteration with a case that leaves the loop; some method closes that same field and the channel is created; each blocking call is either preceded in the iteration by a Set(Read)Deadline on the same connection or the closer also closes that same connection/listener field; " +
 		"goroutines the stop function waits for are launched after wg.Add and defer wg.Done; types that carry a sync.Once close their channel only inside Once.Do. " +
-		"R5 PER-REQUEST STATE: functions started with `go` from inside a loop (request handlers) and everything they call store only into objects allocated per request, or go through the name table's locking methods / sync.Map. " +
+		"R5 PER-REQUEST STATE: functions started with `go` from inside a loop, or by a helper called from a loop (request handlers) and everything they call store only into objects allocated per request, or go through the name table's locking methods / sync.Map. " +
 		"NOT decided: absence of all data races and deadlocks under every schedule (only the named sharing patterns are excluded), promptness/timing of shutdown, goroutines of user-supplied LLMNR handlers, correctness of the name-table semantics (C17), " +
 		"whether the NBNS handlers' answers are those RFC 1002 prescribes beyond the opcode→operation routing, and double Stop of the NBNS servers."
 	r.Assumptions = append(r.Assumptions,
@@ -203,6 +203,68 @@ func (k *c18) r1(fns []*ssa.Function, wide bool) {
 			})
 		}
 	}
+	// reads moved into a helper that allocates the buffer itself (readMessage(conn) returning a
+	// fresh slice): one buffer per call, hence per iteration. Helpers that fill a parameter are
+	// covered above (fills follows them); helpers that fill anything else are not decided.
+	for _, fn := range fns {
+		loops := effects.Loops(fn)
+		if len(loops) == 0 {
+			continue
+		}
+		for _, b := range fn.Blocks {
+			if effects.Innermost(loops, b) == nil {
+				continue
+			}
+			for _, in := range b.Instrs {
+				call, ok := in.(*ssa.Call)
+				if !ok {
+					continue
+				}
+				h := call.Call.StaticCallee()
+				if h == nil || h.Blocks == nil || !k.p.InModule(h) || h.Parent() != nil || h == fn {
+					continue
+				}
+				hloops := effects.Loops(h)
+				for _, hb := range h.Blocks {
+					if effects.Innermost(hloops, hb) != nil {
+						continue // a loop of the helper is judged in the helper
+					}
+					for _, hin := range hb.Instrs {
+						ci, ok := hin.(ssa.CallInstruction)
+						if !ok {
+							continue
+						}
+						i, ok := effects.FillArg(ci.Common())
+						if !ok {
+							continue
+						}
+						buf := effects.AllArgs(ci.Common())[i]
+						local, param, other := 0, 0, 0
+						for _, o := range effects.Roots(buf) {
+							switch o.(type) {
+							case *ssa.Alloc, *ssa.MakeSlice, *ssa.Call:
+								local++
+							case *ssa.Parameter:
+								param++
+							default:
+								other++
+							}
+						}
+						if param > 0 && other == 0 {
+							continue
+						}
+						nLoops++
+						construct := fmt.Sprintf("%s: buffer filled by %s inside a loop (in helper %s)", k.fname(fn), effects.CalleeName(ci.Common()), h.Name())
+						if other == 0 && local > 0 {
+							k.r.OK(rule, construct, k.pos(call), "the helper allocates the destination buffer itself: one buffer per call, hence per iteration")
+						} else {
+							k.r.Undecided(rule, construct, k.pos(call), "the helper called from the loop fills a buffer that is neither allocated by it nor passed in by the loop (a field or global shared by every iteration); what happens to the received bytes afterwards is not followed")
+						}
+					}
+				}
+			}
+		}
+	}
 	// record the summaries that were consulted (evidence)
 	for _, s := range k.al.Summaries() {
 		sums = append(sums, s)
@@ -299,25 +361,67 @@ func (k *c18) r5() {
 		g      *ssa.Go
 		target *ssa.Function
 		loop   *effects.Loop
+		via    *ssa.Call // the go statement sits in a helper called from the loop at this call
 	}
 	var sites []site
 	for _, fn := range k.fns {
 		loops := effects.Loops(fn)
 		for _, b := range fn.Blocks {
+			L := effects.Innermost(loops, b)
+			if L == nil {
+				continue
+			}
 			for _, in := range b.Instrs {
-				g, ok := in.(*ssa.Go)
-				if !ok {
-					continue
-				}
-				L := effects.Innermost(loops, b)
-				if L == nil {
-					continue
-				}
-				for _, t := range k.pg.Callees(&g.Call) {
-					sites = append(sites, site{g, t, L})
+				switch x := in.(type) {
+				case *ssa.Go:
+					for _, t := range k.pg.Callees(&x.Call) {
+						sites = append(sites, site{x, t, L, nil})
+					}
+				case *ssa.Call:
+					// serveConn(conn): a helper that does wg.Add(1); go s.handleConnection(conn)
+					h := x.Call.StaticCallee()
+					if h == nil || h.Blocks == nil || !k.p.InModule(h) || h.Parent() != nil || h == fn {
+						continue
+					}
+					hloops := effects.Loops(h)
+					for _, hb := range h.Blocks {
+						if effects.Innermost(hloops, hb) != nil {
+							continue // launched from a loop of the helper: a site of its own
+						}
+						for _, hin := range hb.Instrs {
+							if g, ok := hin.(*ssa.Go); ok {
+								for _, t := range k.pg.Callees(&g.Call) {
+									sites = append(sites, site{g, t, L, x})
+								}
+							}
+						}
+					}
 				}
 			}
 		}
+	}
+	// rootsAt: the objects an argument of the go statement denotes, in the terms of the
+	// function that contains the loop
+	rootsAt := func(s site, arg ssa.Value) []ssa.Value {
+		rs := effects.Roots(arg)
+		if s.via == nil {
+			return rs
+		}
+		var out []ssa.Value
+		h := s.g.Parent()
+		for _, rt := range rs {
+			prm, ok := rt.(*ssa.Parameter)
+			if !ok || prm.Parent() != h {
+				out = append(out, rt)
+				continue
+			}
+			for i, q := range h.Params {
+				if q == prm && i < len(s.via.Call.Args) {
+					out = append(out, effects.Roots(s.via.Call.Args[i])...)
+				}
+			}
+		}
+		return out
 	}
 	n := 0
 	for _, s := range sites {
@@ -345,10 +449,16 @@ func (k *c18) r5() {
 						bad = append(bad, fmt.Sprintf("store through parameter #%d (%s)", e.Param, e.String()))
 						continue
 					}
-					for _, rt := range effects.Roots(arg) {
+					for _, rt := range rootsAt(s, arg) {
 						in, isInstr := rt.(ssa.Instruction)
 						fresh := false
-						if isInstr && s.loop.Blocks[in.Block()] {
+						if isInstr && in.Parent() != s.loop.Header.Parent() {
+							// allocated inside the helper that launches the goroutine: one object per call
+							switch rt.(type) {
+							case *ssa.Alloc, *ssa.MakeSlice, *ssa.MakeMap, *ssa.Call:
+								fresh = s.via != nil && in.Parent() == s.g.Parent()
+							}
+						} else if isInstr && s.loop.Blocks[in.Block()] {
 							switch rt.(type) {
 							case *ssa.Alloc, *ssa.MakeSlice, *ssa.MakeMap, *ssa.Call:
 								fresh = true
